@@ -33,6 +33,9 @@ pub struct Case {
     /// use a non-canonical (permuted tables, moved strings) image
     pub alt_image: bool,
     pub negative: Negative,
+    /// bit 0: every record also carries its file name as a label (game-style); bit 1: no word alignment before the tables
+    #[serde(default)]
+    pub extras: u8,
 }
 
 pub struct Built {
@@ -88,14 +91,14 @@ pub fn build(case: &Case) -> Built {
         }
         match *s {
             0 => {
-                while data.len() % 4 != 0 {
+                while data.len() % 4 != 0 && case.extras & 2 == 0 {
                     data.push(0xEE);
                 }
                 count_addr = data.len();
                 data.extend_from_slice(&(n as u32).to_le_bytes());
             }
             1 => {
-                while data.len() % 4 != 0 {
+                while data.len() % 4 != 0 && case.extras & 2 == 0 {
                     data.push(0xEE);
                 }
                 info_addr = data.len();
@@ -133,6 +136,9 @@ pub fn build(case: &Case) -> Built {
         if named {
             cells.insert(rec as u32, Cell::Str(files[*fi].0.clone()));
         }
+        if case.extras & 1 == 1 && !files[*fi].0.is_empty() && files[*fi].0 != "Count" && files[*fi].0 != "Info" {
+            labels.entry(rec as u32).or_default().push(files[*fi].0.clone());
+        }
         data[rec + 4..rec + 8].copy_from_slice(&(r.next() as u32).to_le_bytes());
         data[rec + 8..rec + 12].copy_from_slice(&size.to_le_bytes());
         data[rec + 12..rec + 16].copy_from_slice(&offset.to_le_bytes());
@@ -153,7 +159,7 @@ impl Prop for C16 {
     const ID: &'static str = "C16";
     fn rule() -> String {
         "Sets of 0..=8 distinct Shift-JIS-lossless names with contents (empty, unaligned lengths, <= 600 bytes) are laid out as an arc data region by the harness: with or without the 0x60-byte zero header (without it the first data word is non-zero), \
-         the Count cell, the Info table and the bodies in a generated order with gaps, records in a generated order, bodies anywhere (incl. an empty body at the very end of the data), offsets relative to the end of the header when present; the bin-archive image is written by \
+         the Count cell, the Info table and the bodies in a generated order with gaps, records in a generated order, bodies anywhere (incl. an empty body at the very end of the data), offsets relative to the end of the header when present; optionally every record also carries its file name as a label (as the games' files do; names such as Data included) and the tables are placed without word alignment; the bin-archive image is written by \
          the independent reference writer (canonical or permuted tables / moved strings). Oracle: arc::from_bytes returns exactly one entry per record, keyed by name, with exactly the recorded bytes. Negative variants: Count label removed => Err, Info label removed => Err, \
          one record without a name pointer => Err, one record whose range leaves the data region (by 1..=256 bytes, or an offset field near 2^32) => Err; never a panic, in both builds. \
          Non-trivial: >= 2 files and (no header, or record order != body order, or an empty file). Distinct = distinct case value."
@@ -169,7 +175,7 @@ impl Prop for C16 {
         tier.pick(10_000, 5_000_000)
     }
     fn strategy(_tier: Tier) -> BoxedStrategy<Case> {
-        let name = prop_oneof![3 => "[a-zA-Z0-9_.]{1,12}", 2 => sjis_string(8), 1 => proptest::sample::select(vec!["Count".to_string(), "Info".to_string(), "".to_string()])];
+        let name = prop_oneof![3 => "[a-zA-Z0-9_.]{1,12}", 2 => sjis_string(8), 1 => proptest::sample::select(vec!["Count".to_string(), "Info".to_string(), "".to_string(), "Data".to_string(), "Header".to_string()])];
         let len = prop_oneof![2 => Just(0u32), 3 => 1u32..=9, 3 => 0u32..=600];
         let negative = prop_oneof![
             8 => Just(Negative::None),
@@ -179,27 +185,27 @@ impl Prop for C16 {
             2 => (any::<u16>(), any::<u8>()).prop_map(|(a, b)| Negative::RangePastEnd(a, b)),
             1 => any::<u16>().prop_map(Negative::HugeOffset),
         ];
-        (proptest::collection::vec((name, len, any::<u64>()), 0..=8), any::<bool>(), any::<u64>(), any::<bool>(), negative)
-            .prop_map(|(files, header, layout_seed, alt_image, negative)| Case { files, header, layout_seed, alt_image, negative })
+        (proptest::collection::vec((name, len, any::<u64>()), 0..=8), any::<bool>(), any::<u64>(), any::<bool>(), negative, prop_oneof![2 => Just(0u8), 1 => Just(1u8), 1 => 0u8..4])
+            .prop_map(|(files, header, layout_seed, alt_image, negative, extras)| Case { files, header, layout_seed, alt_image, negative, extras })
             .boxed()
     }
     fn enumerate(_tier: Tier, shard: u64, nshards: u64, f: &mut dyn FnMut(Case) -> bool) {
         // small archives in every section order (layout seeds 0..40), with/without header, with an empty file
         let mut idx = 0u64;
         for header in [true, false] {
-            for files in [vec![], vec![("a".to_string(), 5u32, 1u64)], vec![("a".to_string(), 3, 1), ("empty".to_string(), 0, 2)], vec![("x".to_string(), 0, 1), ("\u{FF71}".to_string(), 33, 2), ("z".to_string(), 8, 3)]] {
+            for files in [vec![], vec![("a".to_string(), 5u32, 1u64)], vec![("a".to_string(), 3, 1), ("empty".to_string(), 0, 2)], vec![("x".to_string(), 0, 1), ("\u{FF71}".to_string(), 33, 2), ("z".to_string(), 8, 3)], vec![("Data".to_string(), 7, 1), ("b".to_string(), 2, 2)]] {
                 for seed in 0..40u64 {
                     for alt in [false, true] {
                         let mine = idx % nshards == shard;
                         idx += 1;
-                        if mine && !f(Case { files: files.clone(), header, layout_seed: seed, alt_image: alt, negative: Negative::None }) {
+                        if mine && !f(Case { files: files.clone(), header, layout_seed: seed, alt_image: alt, negative: Negative::None, extras: (seed % 4) as u8 }) {
                             return;
                         }
                     }
                     for negative in [Negative::NoCountLabel, Negative::NoInfoLabel, Negative::MissingName(0), Negative::RangePastEnd(0, 0), Negative::RangePastEnd(65535, 3), Negative::HugeOffset(0)] {
                         let mine = idx % nshards == shard;
                         idx += 1;
-                        if mine && seed % 4 == 0 && !f(Case { files: files.clone(), header, layout_seed: seed, alt_image: false, negative }) {
+                        if mine && seed % 4 == 0 && !f(Case { files: files.clone(), header, layout_seed: seed, alt_image: false, negative, extras: 0 }) {
                             return;
                         }
                     }
@@ -265,6 +271,8 @@ impl Prop for C16 {
         cx.label_if(has_empty, "empty-file");
         cx.label_if(b.record_order_differs, "record-order-differs");
         cx.label_if(case.alt_image, "permuted-image");
+        cx.label_if(case.extras & 1 == 1, "records-labelled-with-file-names");
+        cx.label_if(case.extras & 2 == 2 && b.content.cells.keys().any(|a| a % 4 != 0), "unaligned-record-table");
         cx.label_if(!case.header && b.content.data.len() < 0x60, "no-header-and-data<0x60");
     }
 }
